@@ -34,10 +34,11 @@ type c03cfg struct {
 	inflight []string // kinds
 	late     []string // late clients: "quick" | "long"
 	sick     bool     // the targets fail their probes after deployment: unhealthy (out of rotation) but with requests in flight
+	prior    string   // "timeout" | "clean": the targets were drained before (a pause cutting off a request at its deadline / a pause with a request finishing early), then resumed
 }
 
 func (c c03cfg) String() string {
-	return fmt.Sprintf("cmd=%s targets=%d rollout=%v inflight=[%s] late=[%s] sick=%v", c.cmd, c.targets, c.rollout, strings.Join(c.inflight, ","), strings.Join(c.late, ","), c.sick)
+	return fmt.Sprintf("cmd=%s targets=%d rollout=%v inflight=[%s] late=[%s] sick=%v prior=%s", c.cmd, c.targets, c.rollout, strings.Join(c.inflight, ","), strings.Join(c.late, ","), c.sick, c.prior)
 }
 
 func c03Configs(tier string) []c03cfg {
@@ -60,6 +61,12 @@ func c03Configs(tier string) []c03cfg {
 		}
 		cfgs = append(cfgs, c03cfg{cmd: "pause", targets: 1, rollout: true, inflight: []string{"never", "upgrade"}, late: []string{"long"}})
 		cfgs = append(cfgs, c03cfg{cmd: "stop", targets: 1, rollout: true, inflight: []string{"early", "after"}, late: []string{"long"}})
+		for _, cmd := range []string{"redeploy", "pause", "stop"} {
+			for _, pr := range []string{"timeout", "clean"} {
+				cfgs = append(cfgs, c03cfg{cmd: cmd, targets: 1, inflight: []string{"early", "never"}, prior: pr})
+				cfgs = append(cfgs, c03cfg{cmd: cmd, targets: 1, inflight: []string{"after"}, prior: pr})
+			}
+		}
 		return cfgs
 	}
 
@@ -104,6 +111,13 @@ func c03Configs(tier string) []c03cfg {
 		for _, in := range sets {
 			if len(in) > 0 {
 				cfgs = append(cfgs, c03cfg{cmd: cmd, targets: 1, inflight: in, sick: true})
+			}
+		}
+	}
+	for _, cmd := range []string{"redeploy", "pause", "stop"} {
+		for _, pr := range []string{"timeout", "clean"} {
+			for _, in := range [][]string{{"early"}, {"never"}, {"after"}, {"before", "never"}, {"early", "upgrade"}, {"lateup"}} {
+				cfgs = append(cfgs, c03cfg{cmd: cmd, targets: 1, inflight: in, prior: pr})
 			}
 		}
 	}
@@ -182,6 +196,22 @@ func c03Scenario(c c03cfg) *Scenario {
 		}
 		time.Sleep(vI / 2)
 		var wg vsync.WaitGroup
+		if c.prior != "" {
+			// an earlier drain of the same targets, ended by its deadline or by its request finishing, then resume
+			plan := "hang"
+			if c.prior == "clean" {
+				plan = "delay=600ms"
+			}
+			wg.Add(1)
+			vsched.GoTagged("client", func() {
+				defer wg.Done()
+				w.Do(ReqSpec{ID: "prior", Host: host, Plan: plan})
+			})
+			time.Sleep(100 * time.Millisecond)
+			w.Pause("s1", vD, vMaxPause)
+			w.Resume("s1")
+			time.Sleep(vI/2 + 100*time.Millisecond)
+		}
 		for i, k := range c.inflight {
 			wg.Add(1)
 			plan := c03Inflight[k]
